@@ -76,7 +76,11 @@ theorem sumTo_ite_eq (n j0 : Nat) (h : j0 < n) (f : Nat → K) :
 theorem sumTo_ite_eq' (n j0 : Nat) (h : j0 < n) (f : Nat → K) :
     sumTo n (fun j => if j0 = j then f j else 0) = f j0 := by
   rw [← sumTo_ite_eq n j0 h f]
-  exact sumTo_congr (fun j _ => by by_cases hj : j = j0 <;> simp [hj, eq_comm])
+  exact sumTo_congr (fun j _ => by
+    by_cases hj : j = j0
+    · simp [hj]
+    · have : ¬ j0 = j := fun h => hj h.symm
+      simp [hj, this])
 
 /-- A sum whose terms vanish except possibly one. -/
 theorem sumTo_eq_single (n j0 : Nat) (h : j0 < n) (f : Nat → K)
